@@ -34,14 +34,36 @@ class P:
             self.cj[line] = {"cmd": "mirror", "proto": proto, "udpsize": mx, "dst": "127.0.0.1", "port": port,
                              "dgrams": [[s.hex(), p.hex()] for s, p in dg]}
             out.append(line)
+        # the copy the WORKER makes for the mirror goroutine (vflow/ipfix.go, vflow/sflow.go): real workers with mirroring on, the
+        # mirror queue read only after all datagrams were processed (an aliased or reused buffer is then visibly overwritten)
+        for i in range(max(4, budget // 2)):
+            proto = ["ipfix", "sflow"][i % 2]
+            mx = rng.choice([512, 1500, 9000])
+            workers = rng.choice([1, 1, 2, 4])
+            dg = []
+            for _ in range(rng.choice([2, 5, 40, 200])):
+                n = rng.choice([0, 1, 20, 100, 100, mx // 2, mx - 1, mx, rng.randrange(0, mx + 1)])
+                a4 = bytes([rng.choice([10, 172, 192, 198]), rng.randrange(256), rng.randrange(256), rng.randrange(1, 255)])
+                src = a4 if rng.random() < 0.5 else bytes(10) + b"\xff\xff" + a4
+                dg.append((src, bytes(rng.randrange(256) for _ in range(n))))
+            line = "pmirror %s %d w%d %s" % (proto, mx, workers, " ".join("%s %s" % (hx(s), hx(p)) for s, p in dg))
+            self.cj[line] = {"cmd": "pipeline", "proto": proto, "workers": workers, "udpsize": mx, "mirror": True, "pre": [], "filter": [],
+                             "ext_elements": [], "dgrams": [[s.hex(), p.hex()] for s, p in dg]}
+            out.append(line)
         return out
+
+    def post(self, lines, impl, model):
+        return impl, [("-" if l.startswith("pmirror") else m) for l, m in zip(lines, model)]
 
     def run_impl(self, lines):
         res = vf.run_driver([self.cj[l] for l in lines], timeout=1800)
         out = []
-        for r in res:
-            if "error" in r:
+        for l, r in zip(lines, res):
+            if "error" in r and r["error"]:
                 out.append("DRIVER-ERROR " + r["error"][:200]); continue
+            if l.startswith("pmirror"):
+                out.append("Q " + " ".join("%s/%s" % (a, b) for a, b in (r.get("mirrored_msgs") or [])))
+                continue
             items = []
             for o in r["results"]:
                 if o["status"] == "OK":
@@ -57,6 +79,17 @@ class P:
         if impl.startswith("DRIVER-ERROR"):
             return impl
         c = self.cj[line]
+        if line.startswith("pmirror"):
+            import collections
+            got = [tuple(x.split("/")) for x in impl[2:].split(" ") if x]
+            want = [(a, b) for a, b in c["dgrams"]]
+            if c["workers"] == 1 and got != want or collections.Counter(got) != collections.Counter(want):
+                bad = [g for g in got if g not in want]
+                if bad:
+                    return ("the %s worker queued for mirroring a datagram that was never received (source %s, %d octets: %s...): the copy handed to "
+                            "the mirror goroutine was overwritten or is not the received payload" % (c["proto"], bad[0][0], len(bad[0][1]) // 2, bad[0][1][:40]))
+                return "the %s worker queued %d datagrams for mirroring, %d were received (queue capacity 1000)" % (c["proto"], len(got), len(want))
+            return None
         if " FOREIGN-BUFFERS=" in impl:
             return "mirroring returned %s receive buffer(s) to the pool of another protocol (buffers of the wrong size then reach that protocol's receive loop)" % impl.rsplit("=", 1)[1]
         got, want = impl.split(" "), model.split(" ")
@@ -84,7 +117,7 @@ class P:
 
     def classify(self, line, impl, model):
         c = self.cj[line]
-        return ("%s max=%d" % (c["proto"], c["udpsize"]), line)
+        return ("%s %s max=%d" % (line.split(" ", 1)[0], c["proto"], c["udpsize"]), line)
 
     def tie_obligations(self):
         return 0
@@ -93,7 +126,9 @@ class P:
         return ("per case (IPFIX and sFlow mirror functions alternately; max-udp-size 512/1500/9000; random target port): 18 datagrams with "
                 "payload lengths 0, 1, max-29..max, random, and runs of equal length from different exporters; source addresses in 4-byte "
                 "and IPv4-mapped 16-byte form; every octet of the packet seen on the wire is compared except IP identification and header "
-                "checksum (filled in by the kernel for IPPROTO_RAW senders). every case is distinct")
+                "checksum (filled in by the kernel for IPPROTO_RAW senders). Plus 'pmirror' cases: the REAL ipfix/sflow workers with mirroring on "
+                "(1/2/4 workers, 2-200 datagrams of mixed sizes), the mirror queue read only afterwards: what the worker queued must be exactly the "
+                "received (source, payload) pairs. every case is distinct")
 
     def trusted_base(self):
         return ["Coq 8.16.1 kernel",
